@@ -155,7 +155,7 @@ fn gen_case(src: &mut Src, force_h: usize, huge_ok: bool) -> Case {
     let contents = src.alt(2, &["no-contents", "page-contents"]) == 1;
     // Domain note: /StmF /Identity is rejected by the library at load ("missing crypt filter entry"), i.e. it is not a
     // variant the library accepts, so it is outside the statement and not generated; /StrF /Identity loads and is kept.
-    let cfk = match alt_if(src, r >= 4, 8, &["cf-std", "strf-identity"]) { 0 => 0, _ => 2 };
+    let cfk = alt_if(src, r >= 4, 8, &["cf-std", "stmf-identity", "strf-identity"]);
     let lk = alt_if(src, r >= 4, 6, &["len-both", "cf-length-omitted", "enc-length-omitted"]);
     let l40 = alt_if(src, r <= 3 && key_bytes == 5, 1, &["length-40", "length-omitted"]) == 1;
     let cf_type = alt_if(src, r >= 4, 1, &["cf-plain", "cf-with-type"]) == 1;
